@@ -38,6 +38,9 @@
 #include "util_int.h"
 #include <regex.h>
 
+/* the formatters need room for an ellipsis and the terminator */
+#define QB_LOG_MIN_LINE_LEN_ 4
+
 static struct qb_log_target conf[QB_LOG_TARGET_MAX];
 static uint32_t conf_active_max = 0;
 static int32_t in_logger = QB_FALSE;
@@ -1116,7 +1119,8 @@ qb_log_ctl2(int32_t t, enum qb_log_conf c, qb_log_ctl2_arg_t arg_not4directuse)
 		break;
 	case QB_LOG_CONF_MAX_LINE_LEN:
 		/* arbitrary limit, but you'd be insane to go further */
-		if (arg_i32 > QB_LOG_ABSOLUTE_MAX_LEN) {
+		if (arg_i32 < QB_LOG_MIN_LINE_LEN_ ||
+		    arg_i32 > QB_LOG_ABSOLUTE_MAX_LEN) {
 			rc = -EINVAL;
 		} else {
 			conf[t].max_line_length = arg_i32;
